@@ -198,3 +198,43 @@ def _unquote(x):
   if len(x) >= 3 and x[0] in "bB" and x[1] == x[-1] and x[1] in "'\"":
     return "b" + x[2:-1]
   return x
+
+
+def find_failure(adm, t, s, path=()):
+  """Descends to the innermost (type, shape) pair that is not admitted.
+  Returns (path, type, shape, parent_shape); path items: 'elem', 'key', 'value', 'tuple[i]', 'union'."""
+  pytd = adm.pytd
+  k = s.get("k")
+  if isinstance(t, pytd.Annotated):
+    return find_failure(adm, t.base_type, s, path)
+  if isinstance(t, pytd.UnionType):
+    # descend into the member that nominally matches the container, if any
+    for m in t.type_list:
+      base = m.base_type.name if isinstance(m, pytd.GenericType) else getattr(m, "name", "")
+      if adm.short(base) in s.get("mro", ()):
+        r = find_failure(adm, m, s, path)
+        if r[0] != path:
+          return r
+    return (path, t, s, None)
+  if isinstance(t, pytd.TupleType) and k == "tuple" and s["n"] == len(t.parameters):
+    for i, (pt, e) in enumerate(zip(t.parameters, s["e"])):
+      if not adm.admits(pt, e):
+        r = find_failure(adm, pt, e, path + (f"tuple[{i}]",))
+        return r if r[3] is not None else (r[0], r[1], r[2], s)
+  elif isinstance(t, pytd.GenericType) and not isinstance(t, (pytd.CallableType, pytd.TupleType)):
+    base = adm.short(t.base_type.name)
+    if base in ("list", "set", "frozenset", "tuple") and k in ("list", "set", "frozenset", "tuple") \
+        and adm.nominal_is(base, s):
+      for e in s["e"]:
+        if not adm.admits(t.parameters[0], e):
+          r = find_failure(adm, t.parameters[0], e, path + ("elem",))
+          return r if r[3] is not None else (r[0], r[1], r[2], s)
+    if base == "dict" and k == "dict" and len(t.parameters) == 2:
+      for a, b in s["kv"]:
+        if not adm.admits(t.parameters[0], a):
+          r = find_failure(adm, t.parameters[0], a, path + ("key",))
+          return r if r[3] is not None else (r[0], r[1], r[2], s)
+        if not adm.admits(t.parameters[1], b):
+          r = find_failure(adm, t.parameters[1], b, path + ("value",))
+          return r if r[3] is not None else (r[0], r[1], r[2], s)
+  return (path, t, s, None)
